@@ -137,6 +137,11 @@ fn long_games(out: &mut Out, rng: &mut Rng, corpus: &[String], n: usize, budget:
         if gi % 2 == 0 {
             spec.start_fen = gen::START_FEN.into();
         }
+        if gi % 3 == 2 {
+            // tiny positions: the search races through the iterations, the table line cycles
+            spec.start_fen = ["8/2k5/8/8/8/8/3K4/8 w - - 0 1", "8/8/8/1p6/1P6/1k6/8/1K6 w - - 0 1", "8/8/4k3/4p3/4P3/4K3/8/8 w - - 0 1", "k1p5/p1p5/P1P5/8/7p/p1p5/P1P4P/K1P5 w - - 0 1"][(gi / 3 + shard) % 4].to_string();
+            spec.policy = 5;
+        }
         let moves = game_moves(&spec);
         let root = Root { fen: spec.start_fen.clone(), moves: moves.clone() };
         let case = json!({"kind":"long-game","root":root.json()});
